@@ -1128,13 +1128,11 @@ Proof.
     destruct (qd_char_plain c Hc) as (E34 & E13 & E10 & E92 & Eb).
     cbn [app]. unfold pqs_iter at 1. cbn [hdz tlz]. rewrite E34, E13. cbn [negb andb].
     replace (1 <? len) with true by (cbn [lenN] in Hlen; lia).
-    rewrite E10, E92. cbn [andb].
+    cbn [hdz tlz]. rewrite E10, E92. cbn [andb].
     change (c :: X' ++ 34 :: junk) with ((c :: X') ++ 34 :: junk).
     rewrite (qd_run_all (c :: X') (len - 1) (34 :: junk) HX0 ltac:(cbn [lenN] in *; lia) eq_refl).
     cbn [hdz]. change (bad_ctl 34) with false. cbv iota.
-    destruct (length ((c :: X') ++ 34 :: junk)) as [|n] eqn:El.
-    { apply (f_equal N.of_nat) in El. rewrite <- lenN_length, lenN_app in El. cbn [lenN] in El. lia. }
-    cbn [pqs_loop]. unfold pqs_iter. cbn [hdz N.eqb Pos.eqb negb andb]. reflexivity.
+    unfold pqs_iter at 1. cbn [hdz N.eqb Pos.eqb negb andb]. reflexivity.
 Qed.
 
 (* RFC 9110 5.6.4 quoted-string: DQUOTE *( qdtext / quoted-pair ) DQUOTE, quoted-pair unescaped *)
@@ -1151,9 +1149,9 @@ Fixpoint rfc_body (l acc : bytes) : option bytes :=
 Definition rfc_unquote (arg : bytes) : option bytes :=
   match arg with 34 :: l => rfc_body l [] | _ => None end.
 
-Definition wit_qpair : bytes := [34; 97; 92; 34; 98; 34].      (* "a\"b" *)
-Definition wit_qback : bytes := [34; 97; 92; 92; 98; 34].      (* "a\\b" *)
-Definition wit_htab : bytes := [34; 65; 44; 9; 66; 34].        (* "A,<TAB>B" *)
+Definition wit_qpair : bytes := [34; 97; 92; 34; 98; 34].      (* DQUOTE a BACKSLASH DQUOTE b DQUOTE *)
+Definition wit_qback : bytes := [34; 97; 92; 92; 98; 34].      (* DQUOTE a BACKSLASH BACKSLASH b DQUOTE *)
+Definition wit_htab : bytes := [34; 65; 44; 9; 66; 34].        (* DQUOTE A , HTAB B DQUOTE *)
 
 Lemma quoted_pair_refuted :
   exists arg t, rfc_unquote arg = Some t /\ parse_quoted_string arg (lenN arg) <> QOk t /\
@@ -1210,4 +1208,274 @@ Proof.
   intros HX HT arg. split.
   - unfold arg, rfc_unquote. now rewrite (rfc_body_plain X junk [] HX HT).
   - unfold arg. apply pqs_plain; [exact HX|]. cbn [lenN]. rewrite lenN_app. cbn [lenN]. lia.
+Qed.
+
+Lemma pairs_local v : Forall (fun p => forall st,
+  cc_step st (fst p) (snd p) = cc_step st (fst p) (fst p)) (pairs_of v).
+Proof.
+  pose proof (pairs_of_wf v) as H. induction H as [|[it tl] ps Hp Hps IH]; constructor; [|exact IH].
+  intros st. cbn [fst snd]. apply (cc_step_local st it tl Hp).
+Qed.
+
+(* ====================================================================== *)
+(* Part D. packInto, and parsing the packed text *)
+
+(* --- the scanner on concatenations --- *)
+(* state after scanning all of l without meeting an unquoted ',' or ending inside an escape *)
+Fixpoint scan_q (q : bool) (l : bytes) : option bool :=
+  match l with
+  | [] => Some q
+  | c :: r =>
+      if q then
+        if c =? 34 then scan_q false r
+        else if c =? 92 then match r with [] => None | _ :: r' => scan_q true r' end
+        else scan_q true r
+      else
+        if c =? 34 then scan_q true r
+        else if c =? 44 then None
+        else scan_q false r
+  end.
+
+Lemma scan_item_app : forall a q q' b acc, scan_q q a = Some q' ->
+  scan_item 44 q (a ++ b) acc = scan_item 44 q' b (rev a ++ acc).
+Proof.
+  fix IH 1. intros a q q' b acc H. destruct a as [|c r].
+  - cbn in H. injection H as <-. reflexivity.
+  - cbn [scan_q] in H. cbn [app scan_item]. destruct q.
+    + destruct (c =? 34).
+      * rewrite (IH r false q' b (c :: acc) H). cbn [rev]. now rewrite <- app_assoc.
+      * destruct (c =? 92).
+        -- destruct r as [|d r']; [discriminate|]. cbn [app].
+           rewrite (IH r' true q' b (d :: c :: acc) H). cbn [rev]. now rewrite <- !app_assoc.
+        -- rewrite (IH r true q' b (c :: acc) H). cbn [rev]. now rewrite <- app_assoc.
+    + destruct (c =? 34).
+      * rewrite (IH r true q' b (c :: acc) H). cbn [rev]. now rewrite <- app_assoc.
+      * destruct (c =? 44) eqn:E44; [discriminate|]. rewrite orb_diag.
+        rewrite (IH r false q' b (c :: acc) H). cbn [rev]. now rewrite <- app_assoc.
+Qed.
+
+Lemma scan_q_app : forall a q q' b, scan_q q a = Some q' -> scan_q q (a ++ b) = scan_q q' b.
+Proof.
+  fix IH 1. intros a q q' b H. destruct a as [|c r].
+  - cbn in H. injection H as <-. reflexivity.
+  - cbn [scan_q] in H. cbn [app scan_q]. destruct q.
+    + destruct (c =? 34); [exact (IH r false q' b H)|].
+      destruct (c =? 92); [|exact (IH r true q' b H)].
+      destruct r as [|d r']; [discriminate|]. cbn [app]. exact (IH r' true q' b H).
+    + destruct (c =? 34); [exact (IH r true q' b H)|].
+      destruct (c =? 44); [discriminate|]. exact (IH r false q' b H).
+Qed.
+
+Definition closed (i : bytes) : Prop := scan_q false i = Some false.
+Definition good_item (i : bytes) : Prop :=
+  is_delim2 44 (hdz i) = false /\ ends_nonspace i /\ no_nul i /\ closed i.
+
+(* items joined by ", " *)
+Fixpoint joinr (its : list bytes) : bytes :=
+  match its with
+  | [] => []
+  | x :: r => match r with [] => x | _ => x ++ [44; 32] ++ joinr r end
+  end.
+
+Lemma rtrim_ends i : ends_nonspace i -> rtrim i = i.
+Proof.
+  intros (b & c & -> & Hc). unfold rtrim. rewrite rev_app_distr. cbn [rev app drop_while]. rewrite Hc.
+  cbn [rev]. now rewrite rev_involutive.
+Qed.
+
+Lemma drop_while_head_false p l : p (hdz l) = false -> l <> [] -> drop_while p l = l.
+Proof. destruct l as [|c r]; [contradiction|]. cbn [hdz drop_while]. now intros ->. Qed.
+
+Lemma ends_nonnil i : ends_nonspace i -> i <> [].
+Proof. intros (b & c & -> & _). destruct b; discriminate. Qed.
+
+Lemma items_joinr : forall its f, Forall good_item its -> (length (joinr its) < f)%nat ->
+  items_fuel f 44 (joinr its) = its.
+Proof.
+  induction its as [|x r IH]; intros f Hg Hf.
+  - destruct f; reflexivity.
+  - inversion Hg as [|? ? (Hhd & Hends & Hn & Hcl) Hr]; subst.
+    destruct f as [|f]; [lia|]. cbn [items_fuel joinr].
+    destruct r as [|y r'].
+    + rewrite (drop_while_head_false _ x Hhd (ends_nonnil x Hends)).
+      rewrite <- (app_nil_r x) at 1. rewrite (scan_item_app x false false [] [] Hcl).
+      cbn [scan_item]. rewrite app_nil_r, rev_involutive, (rtrim_ends x Hends).
+      destruct x as [|x0 xr]; [now apply ends_nonnil in Hends|].
+      destruct f; reflexivity.
+    + assert (Hdw : drop_while (is_delim2 44) (x ++ [44; 32] ++ joinr (y :: r')) = x ++ [44; 32] ++ joinr (y :: r')).
+      { apply drop_while_head_false; [|destruct x; [now apply ends_nonnil in Hends|discriminate]].
+        destruct x as [|x0 xr]; [now apply ends_nonnil in Hends|exact Hhd]. }
+      rewrite Hdw. rewrite (scan_item_app x false false _ [] Hcl).
+      cbn [app scan_item N.eqb Pos.eqb orb]. rewrite app_nil_r, rev_involutive, (rtrim_ends x Hends).
+      destruct x as [|x0 xr]; [now apply ends_nonnil in Hends|].
+      f_equal.
+      (* next iteration starts at ", " ++ joinr (y :: r'): the leading delimiters are skipped *)
+      assert (Hnext : forall g, items_fuel (S g) 44 (44 :: 32 :: joinr (y :: r')) = items_fuel (S g) 44 (joinr (y :: r'))).
+      { intros g. cbn [items_fuel drop_while is_delim2 N.eqb Pos.eqb orb]. reflexivity. }
+      change (joinr ((x0 :: xr) :: y :: r')) with ((x0 :: xr) ++ 44 :: 32 :: joinr (y :: r')) in Hf.
+      rewrite app_length in Hf. set (L := length (joinr (y :: r'))) in *. cbn [length] in Hf. fold L in Hf.
+      destruct f as [|f]; [lia|]. rewrite Hnext. apply IH; [exact Hr|]. fold L. lia.
+Qed.
+
+(* --- "%d" of a non-negative int reads back through httpHeaderParseInt --- *)
+Definition dz (c : N) : Z := (Z.of_N c - 48)%Z.
+
+Lemma dec_digits_S k n :
+  dec_digits (S k) n = if n <? 10 then [48 + n] else dec_digits k (n / 10) ++ [48 + n mod 10].
+Proof. reflexivity. Qed.
+
+Lemma digits_value_snoc ds d : digits_value 10 (ds ++ [d]) 0 = (digits_value 10 ds 0 * 10 + d)%Z.
+Proof. unfold digits_value. rewrite fold_left_app. reflexivity. Qed.
+
+Lemma dec_digits_spec : forall fuel n, n < 10 ^ N.of_nat (S fuel) ->
+  digits_value 10 (map dz (dec_digits (S fuel) n)) 0 = Z.of_N n /\
+  forallb is_digit (dec_digits (S fuel) n) = true /\ dec_digits (S fuel) n <> [].
+Proof.
+  induction fuel as [|k IH]; intros n Hn; rewrite dec_digits_S; destruct (n <? 10) eqn:E.
+  - repeat split; [unfold digits_value, dz; cbn [map fold_left]; lia| cbn [forallb]; unfold is_digit; lia| discriminate].
+  - change (10 ^ N.of_nat 1) with 10 in Hn. lia.
+  - repeat split; [unfold digits_value, dz; cbn [map fold_left]; lia| cbn [forallb]; unfold is_digit; lia| discriminate].
+  - assert (Hk : n / 10 < 10 ^ N.of_nat (S k)).
+    { rewrite (Nat2N.inj_succ (S k)), N.pow_succ_r' in Hn. apply N.div_lt_upper_bound; lia. }
+    destruct (IH _ Hk) as (Hv & Hd & Hne). repeat split.
+    + rewrite map_app. cbn [map]. rewrite digits_value_snoc, Hv. unfold dz. pose proof (N.div_mod n 10). lia.
+    + rewrite forallb_app, Hd. cbn [forallb]. unfold is_digit. pose proof (N.mod_lt n 10). lia.
+    + intros H. apply app_eq_nil in H as [_ H]. discriminate.
+Qed.
+
+Lemma digit_run_digits : forall ds, forallb is_digit ds = true -> digit_run 10 ds = map dz ds.
+Proof.
+  induction ds as [|c r IH]; intros H; [reflexivity|].
+  cbn [forallb] in H. apply andb_prop in H. destruct H as [Hc Hr]. cbn [digit_run map].
+  assert (E : digit_of 10 c = Some (dz c)).
+  { unfold digit_of, digit_raw. rewrite Hc. unfold is_digit in Hc. unfold dz.
+    destruct (Z.of_N c - 48 >=? 10)%Z eqn:E; [lia|reflexivity]. }
+  rewrite E. now rewrite IH.
+Qed.
+
+Lemma parse_int_dec v : (0 <= v < 2147483648)%Z -> parse_int (dec_of_Z v) = Some v.
+Proof.
+  intros Hv. unfold dec_of_Z. replace (v <? 0)%Z with false by lia.
+  assert (Hn : Z.to_N v < 10 ^ N.of_nat 12) by (change (10 ^ N.of_nat 12) with 1000000000000; lia).
+  destruct (dec_digits_spec 11 _ Hn) as (Hval & Hd & Hne).
+  set (ds := dec_digits 12 (Z.to_N v)) in *.
+  assert (Hnn : no_nul ds).
+  { unfold no_nul. clear -Hd. induction ds as [|c r IH]; [reflexivity|]. cbn [forallb] in *.
+    apply andb_prop in Hd. destruct Hd as [Hc Hr]. rewrite (IH Hr), andb_true_r. unfold is_digit in Hc. lia. }
+  unfold parse_int. rewrite strtoll10_unfold, (c_string_no_nul ds Hnn).
+  destruct ds as [|c r] eqn:Eds; [contradiction|].
+  pose proof Hd as Hd0. cbn [forallb] in Hd. apply andb_prop in Hd. destruct Hd as [Hc _].
+  assert (Hsp : skip_space (c :: r) 0 = (c :: r, 0)).
+  { cbn [skip_space]. replace (is_c_space c) with false by (unfold is_c_space, is_digit in *; lia). reflexivity. }
+  rewrite Hsp.
+  assert (Hss : sign_split (c :: r) 0 = (false, c :: r, 0)).
+  { unfold sign_split. destruct c as [|p]; [reflexivity|].
+    unfold is_digit in Hc.
+    destruct p as [p|p|]; try reflexivity; repeat (destruct p as [p|p|]; try reflexivity; try lia). }
+  rewrite Hss. unfold strtoll10_tail. rewrite (digit_run_digits (c :: r) Hd0).
+  cbn [map]. change (dz c :: map dz r) with (map dz (c :: r)). rewrite Hval.
+  rewrite Z2N.id by lia. unfold two63, two31.
+  repeat match goal with |- context [if ?c then _ else _] => destruct c eqn:? end; try reflexivity; try (rewrite Hc in *; cbn [negb] in *); lia.
+Qed.
+
+(* --- well-formed objects (what parse() produces) --- *)
+Definition cc_wf (st : cc) : Prop :=
+  (forall F, is_numeric_type F = true -> isSet st F = true -> (0 <= get_num st F < 2147483648)%Z) /\
+  forallb qd_char (private_ st) = true /\ forallb qd_char (no_cache st) = true /\
+  cc_inv st /\ (forall n, CC_OTHER <= n -> isSet st n = false).
+
+(* the text httpHeaderParseQuotedString returns never contains DQUOTE, backslash or a CTL *)
+Lemma qd_run_chars : forall l room, forallb qd_char (fst (qd_run room l)) = true.
+Proof.
+  induction l as [|c r IH]; intros room; cbn [qd_run]; [reflexivity|].
+  destruct ((0 <? room) && qd_char c) eqn:E; [|reflexivity].
+  specialize (IH (N.pred room)). destruct (qd_run (N.pred room) r) as [a b]. cbn [fst forallb] in *.
+  apply andb_prop in E. destruct E as [_ ->]. exact IH.
+Qed.
+
+Lemma pqs_iter_chars pos k len val : forallb qd_char val = true ->
+  match pqs_iter pos k len val with
+  | QDone (QOk t) => forallb qd_char t = true
+  | QNext _ _ v => forallb qd_char v = true
+  | _ => True
+  end.
+Proof.
+  intros Hv. unfold pqs_iter.
+  destruct (negb (hdz pos =? 34) && (k <? len)).
+  - destruct (hdz pos =? 13).
+    + destruct ((len <? k + 1) || negb (hdz (tlz pos) =? 10)); [exact I|].
+      destruct (hdz (tlz pos) =? 10).
+      * destruct ((len <? k + 1 + 1) || negb (hdz (tlz (tlz pos)) =? 32) && negb (hdz (tlz (tlz pos)) =? 9)); [exact I|].
+        rewrite forallb_app, Hv. reflexivity.
+      * destruct ((hdz (tlz pos) =? 92) && _); [exact I|].
+        pose proof (qd_run_chars (if hdz (tlz pos) =? 92 then tlz (tlz pos) else tlz pos)
+                      (len - (if hdz (tlz pos) =? 92 then k + 1 + 1 else k + 1))) as Hr.
+        destruct (qd_run _ _) as [run endp]. cbn [fst] in Hr.
+        destruct (bad_ctl (hdz endp)); [exact I|]. now rewrite forallb_app, Hv, Hr.
+    + destruct (hdz pos =? 10).
+      * destruct ((len <? k + 1) || negb (hdz (tlz pos) =? 32) && negb (hdz (tlz pos) =? 9)); [exact I|].
+        rewrite forallb_app, Hv. reflexivity.
+      * destruct ((hdz pos =? 92) && _); [exact I|].
+        pose proof (qd_run_chars (if hdz pos =? 92 then tlz pos else pos)
+                      (len - (if hdz pos =? 92 then k + 1 else k))) as Hr.
+        destruct (qd_run _ _) as [run endp]. cbn [fst] in Hr.
+        destruct (bad_ctl (hdz endp)); [exact I|]. now rewrite forallb_app, Hv, Hr.
+  - destruct (hdz pos =? 34); [exact Hv|exact I].
+Qed.
+
+Lemma pqs_loop_chars : forall fuel pos k len val t, forallb qd_char val = true ->
+  pqs_loop fuel pos k len val = QOk t -> forallb qd_char t = true.
+Proof.
+  induction fuel as [|f IH]; intros pos k len val t Hv H; [discriminate|].
+  cbn [pqs_loop] in H. pose proof (pqs_iter_chars pos k len val Hv) as Hi.
+  destruct (pqs_iter pos k len val) as [[t'| |]|p k' v]; try discriminate.
+  - injection H as <-. exact Hi.
+  - exact (IH _ _ _ _ _ Hi H).
+Qed.
+
+Lemma pqs_chars s len t : parse_quoted_string s len = QOk t -> forallb qd_char t = true.
+Proof.
+  unfold parse_quoted_string. destruct (negb (hdz s =? 34)); [discriminate|].
+  apply pqs_loop_chars. reflexivity.
+Qed.
+
+Lemma qs_text_chars it : forallb qd_char (qs_text (d_qs it)) = true.
+Proof.
+  unfold d_qs. destruct (d_arg it) as [a|]; [|reflexivity]. cbn [qs_text].
+  destruct (parse_quoted_string a (lenN a)) as [t| |] eqn:E; try reflexivity. exact (pqs_chars _ _ _ E).
+Qed.
+
+Lemma fold_inv : forall its st, cc_inv st -> cc_inv (fold_items its st).
+Proof.
+  induction its as [|it its IH]; intros st H; [exact H|]. cbn [fold_items fold_left].
+  apply IH. now apply cc_inv_step.
+Qed.
+
+Lemma find_sel_some F its it : find (sel F) its = Some it -> d_type it = F /\ eff it = true.
+Proof.
+  intros H. apply find_some in H. destruct H as [_ H]. unfold sel in H. apply andb_prop in H.
+  destruct H as [H1 H2]. split; [lia|exact H2].
+Qed.
+
+Lemma spec_cc_wf its : cc_wf (spec_cc its).
+Proof.
+  split; [|split; [|split; [|split]]].
+  - intros F HF HS. assert (G : get_num (spec_cc its) F = spec_num its F).
+    { unfold is_numeric_type in HF.
+      assert (Hc : F = CC_MAX_AGE \/ F = CC_S_MAXAGE \/ F = CC_MAX_STALE \/ F = CC_MIN_FRESH \/ F = CC_STALE_IF_ERROR) by lia.
+      destruct Hc as [-> | [-> | [-> | [-> | ->]]]]; reflexivity. }
+    rewrite G. unfold spec_num. destruct (find (sel F) its) as [it|] eqn:E.
+    2:{ exfalso. unfold isSet, spec_cc in HS. cbn [cmask] in HS. rewrite testbit_mask_of in HS.
+        apply andb_prop in HS. destruct HS as [HS _]. unfold spec_bit in HS. apply existsb_exists in HS.
+        destruct HS as (x & Hin & Hx). apply (find_none _ _ E x Hin) in Hx || (rewrite (find_none _ _ E x Hin) in Hx; discriminate). }
+    unfold num_of. destruct (d_num it) as [n|] eqn:En; [exact (d_num_range it n En)|]. unfold MAX_STALE_ANY. lia.
+  - unfold spec_cc. cbn [private_]. unfold spec_text. destruct (find _ its); [apply qs_text_chars|reflexivity].
+  - unfold spec_cc. cbn [no_cache]. unfold spec_text. destruct (find _ its); [apply qs_text_chars|reflexivity].
+  - rewrite <- fold_items_spec. apply fold_inv, cc_inv_init.
+  - intros n Hn. unfold isSet, spec_cc. cbn [cmask]. rewrite testbit_mask_of.
+    destruct (n <? CC_ENUM_END) eqn:E; [|apply andb_false_r]. rewrite andb_true_r.
+    assert (n = CC_OTHER) by (unfold CC_OTHER, CC_ENUM_END in *; lia). subst n.
+    unfold spec_bit. induction its as [|it its IH]; [reflexivity|]. cbn [existsb]. rewrite IH, orb_false_r.
+    unfold sel. destruct (d_type it =? CC_OTHER) eqn:Et; [|reflexivity]. cbn [andb].
+    assert (Ht : d_type it = CC_OTHER) by lia. unfold eff. rewrite Ht. reflexivity.
 Qed.
